@@ -2,10 +2,12 @@
 # runs the CURRENT quick check of each kept seed's property against the seeded change and
 # records rc/keys in /tmp/seedout/<seed>/final_check.json (then tools/collect_seeds.py copies it)
 cd /verif
-for d in /tmp/seedout/C*-*/; do
+# usage: final_seed_checks.sh [<seed>...]   (default: every verified seed without final_check.json)
+if [ $# -gt 0 ]; then list=$(for s in "$@"; do echo /tmp/seedout/$s/; done); else list=$(ls -d /tmp/seedout/C*-*/); fi
+for d in $list; do
   d=${d%/}; s=$(basename $d); id=${s%-*}
   [ -f "$d/verify.json" ] || continue
-  [ -f "$d/final_check.json" ] && continue
+  [ $# -eq 0 ] && [ -f "$d/final_check.json" ] && continue
   res=$(LINES_MAX=40 tools/mutant_run.sh "$d/patch.diff" "$id" 2>&1)
   rc=$(echo "$res" | grep -oE "rc=[0-9]+" | head -1 | cut -d= -f2)
   echo "$res" | grep "key:" | sed 's/^ *key: //' | head -4 | python3 -c "
